@@ -4,6 +4,7 @@ from typing import Dict, List, Optional, Tuple, cast
 
 from graphql import (
     BooleanValueNode,
+    ConstListValueNode,
     ConstValueNode,
     EnumValueNode,
     FloatValueNode,
@@ -14,11 +15,13 @@ from graphql import (
     GraphQLScalarType,
     InputValueDefinitionNode,
     IntValueNode,
+    ListTypeNode,
     ListValueNode,
     NonNullTypeNode,
     NullValueNode,
     ObjectValueNode,
     StringValueNode,
+    TypeNode,
 )
 
 from ..codegen import (
@@ -102,7 +105,8 @@ def parse_input_field_default_value(
 ) -> Optional[ast.expr]:
     if node and node.default_value:
         return parse_input_const_value_node(
-            node=node.default_value, field_type=field_type
+            node=coerce_default_value_to_list(node.default_value, node.type),
+            field_type=field_type,
         )
 
     if (node and not isinstance(node.type, NonNullTypeNode)) or (
@@ -113,6 +117,26 @@ def parse_input_field_default_value(
         return generate_constant(None)
 
     return None
+
+
+def coerce_default_value_to_list(
+    value: ConstValueNode, type_node: TypeNode
+) -> ConstValueNode:
+    """Input coercion: a single value given for a list type is a list of one
+    item (at every nesting level), null stays null."""
+    if isinstance(type_node, NonNullTypeNode):
+        type_node = type_node.type
+    if not isinstance(type_node, ListTypeNode) or isinstance(value, NullValueNode):
+        return value
+    if isinstance(value, ListValueNode):
+        return ConstListValueNode(
+            values=tuple(
+                coerce_default_value_to_list(v, type_node.type) for v in value.values
+            )
+        )
+    return ConstListValueNode(
+        values=(coerce_default_value_to_list(value, type_node.type),)
+    )
 
 
 def parse_input_const_value_node(
